@@ -19,6 +19,7 @@ recorded there are validated against SubscriptionFramesTrace.
 import json
 import os
 import random
+import re
 import time
 
 import vlib
@@ -267,6 +268,7 @@ def run(sc, tier, replay_file):
     if r.timed_out or r.returncode != 0:
         raise vlib.MachineryError("stress driver failed: %s" % r.stderr[-2000:])
     sstat = {"runs": 0, "ok": 0, "conns": 0, "subs": 0, "emitted": 0, "frames": 0, "skipped": 0}
+    subtraces, owner, unlinked = [], {}, 0
     for line in open(sout):
         o = json.loads(line)
         if "skippedRest" in o:
@@ -284,6 +286,10 @@ def run(sc, tier, replay_file):
             continue
         for f in ("conns", "subs", "emitted", "frames"):
             sstat[f] += o.get(f, 0)
+        unlinked += o.get("unlinked", 0)
+        for t_ in o.get("subTraces") or []:
+            subtraces.append(t_)
+            owner[t_["key"]] = o
         if o.get("deviation"):
             mach.append("stress %s: %s" % (o["id"], o["deviation"]))
         elif o.get("badFrames"):
@@ -298,6 +304,64 @@ def run(sc, tier, replay_file):
         else:
             sstat["ok"] += 1
     log("direction B (stress): %s" % sstat)
+
+    # ---------------------------------------------------------------- direction B: the hook events of the free runs against SubscriptionImpl
+    # Per subscription the program points of its own goroutines (Listen, Close, upstream reader, upstream closer), each
+    # in its own certain order; TLC looks for an interleaving of SubscriptionImpl that explains all four
+    # (spec/SubscriptionImplTrace.tla).  Two corrupted copies of accepted records ride along as negative controls.
+    tstat = {"records": len(subtraces), "accepted": 0, "refused": 0, "left_behind": 0, "unlinked_subscriptions": unlinked, "events": 0}
+    if len(subtraces) > 80000:
+        # (thorough tier: TLC needs about 85 states per record; the sample keeps the pass within a few minutes)
+        random.Random(vlib.seed()).shuffle(subtraces)
+        tstat["records_not_examined"] = len(subtraces) - 80000
+        subtraces = subtraces[:80000]
+        tstat["records"] = 80000
+    if subtraces:
+        ctrl = []
+        src = next((t_ for t_ in subtraces if len(t_["L"]) >= 5 and "write" in t_["L"]), None)
+        if src is not None:
+            c1 = json.loads(json.dumps(src)); c1["key"] = "NEG-dropped-write"; c1["L"].remove("write"); ctrl.append(c1)
+            c2 = json.loads(json.dumps(src)); c2["key"] = "NEG-frame-without-event"; c2["R"] = [x for x in c2["R"] if x != "send"]
+            c2["R"] = [x for i, x in enumerate(c2["R"]) if not (x == "read" and i > 0 and c2["R"][i - 1] == "read")]; ctrl.append(c2)
+        src = next((t_ for t_ in subtraces if t_["L"][-1:] == ["done"] and t_["K"][-1:] == ["done"]), None)
+        if src is not None:
+            c3 = json.loads(json.dumps(src)); c3["key"] = "NEG-closer-never-ran"; c3["K"] = []; ctrl.append(c3)
+        trf = sc.path("subtraces.ndjson")
+        with open(trf, "w") as fh:
+            for t_ in subtraces + ctrl:
+                fh.write(json.dumps(t_) + "\n")
+        t = vlib.run_tlc(sc, "SubscriptionImplTrace", "SubscriptionImplTrace.cfg", workers=1, serial=True, name="subtraces",
+                         env={"SUBTRACE_FILE": trf}, timeout=2400, heap="8g")
+        verdicts = {}
+        for m_ in re.finditer(r'<<"SUBTRACE", "([^"]*)", "(accepted|refused)", (\d+), (\d+)>>', t.out):
+            verdicts[m_.group(1)] = (m_.group(2), int(m_.group(3)), int(m_.group(4)))
+        if len(verdicts) != len(subtraces) + len(ctrl):
+            raise vlib.MachineryError("SubscriptionImplTrace reported %d verdicts for %d records" % (len(verdicts), len(subtraces) + len(ctrl)))
+        for c_ in ctrl:
+            if verdicts[c_["key"]][0] != "refused":
+                raise vlib.MachineryError("negative control: the corrupted record %s was accepted by SubscriptionImplTrace" % c_["key"])
+        tstat["negative_controls_refused"] = len(ctrl)
+        tstat["tlc_states"] = t.distinct
+        for t_ in subtraces:
+            v, prog, total = verdicts[t_["key"]]
+            tstat["events"] += total
+            o = owner[t_["key"]]
+            rep = {"mode": "stress", "seed": o.get("seed"), "id": o.get("id"), "actions": o.get("actions")}
+            if v == "accepted":
+                tstat["accepted"] += 1
+            elif prog == total:
+                # every step is a step of the model, but where the logs end something of the subscription is still there
+                tstat["left_behind"] += 1
+                left = [g for g in ("L", "R", "K") if t_[g][-1:] != ["done"]] + (["C"] if t_["C"][-1:] == ["enter"] else [])
+                V.violation("hook-events:left-behind:%s" % "+".join(left),
+                            "free run %s, subscription %s: after every client had gone and the process was left to settle, the hook events of the "
+                            "subscription's goroutines end before their exits (%s): L=%s C=%s R=%s K=%s\n   actions: %s" % (
+                                o["id"], t_["key"], "+".join(left), t_["L"][-3:], t_["C"], t_["R"][-3:], t_["K"], o["actions"]), dict(rep, record=t_))
+            else:
+                tstat["refused"] += 1
+                drift.append("free run %s: no behaviour of SubscriptionImpl explains the hook events of subscription %s beyond %d of %d: %s" % (
+                    o["id"], t_["key"], prog, total, json.dumps(t_)))
+    log("direction B (hook events vs SubscriptionImpl): %s" % tstat)
 
     # ---------------------------------------------------------------- negative controls
     # 1. a behaviour the model does not have must be reported as not followed by the code
@@ -324,8 +388,8 @@ def run(sc, tier, replay_file):
         # The property is about what the gateway does, not about how: a reworked handshake that still keeps the contract
         # must not raise an alarm.  Those behaviours are then decided by their end state (process alive, nothing left
         # behind, frames intact) and by the free runs only.  VERIF_STRICT=1 turns this into an error (model maintenance).
-        V.note("SPEC-DRIFT: on %d of %d replayed behaviours the code did not follow SubscriptionImpl step by step although it did nothing the "
-               "property forbids; these were judged by their end state only. First: %s" % (len(drift), len(cases), drift[0][:400]))
+        V.note("SPEC-DRIFT: on %d of %d replayed behaviours / recorded subscriptions the code did not follow SubscriptionImpl step by step although it did nothing the "
+               "property forbids; these were judged by their end state only. First: %s" % (len(drift), len(cases) + tstat["records"], drift[0][:400]))
         if os.environ.get("VERIF_STRICT") == "1":
             raise vlib.MachineryError("SPEC-DRIFT (VERIF_STRICT=1): %s" % drift[0])
     rc = V.finish()
@@ -336,10 +400,10 @@ def run(sc, tier, replay_file):
     sample = next((c for c in cases if len(c["steps"]) >= 12), cases[0])
     vlib.write_evidence(PID, tier, "model_checking", {
         "states": design["states"], "transitions": design["transitions"],
-        "traces_validated_against_impl": counts["ok"],
+        "traces_validated_against_impl": counts["ok"] + tstat["accepted"],
         "samples": [{"direction": "A", "history": history(sample)}],
         "design_level": design, "direction_A": dict(gstat, results=counts, actions_exercised=acts),
-        "frames": fstat, "negative_controls_rejected": 2, "direction_B_stress": sstat, "spec_drift_behaviours": len(drift),
+        "frames": fstat, "negative_controls_rejected": 2 + tstat.get("negative_controls_refused", 0), "direction_B_stress": sstat, "direction_B_hook_traces": tstat, "spec_drift_behaviours": len(drift),
         "evaluations": len(cases) + len(frames) + sstat["runs"],
         "distinct_nontrivial": len({json.dumps(history(c)) for c in cases if len(c["init"][1]) + len(c["init"][2]) > 0}),
         "rule": "maximal behaviours of SubscriptionImpl (Forceable) over 9 client scripts x 10 upstream scripts x {start succeeds, upstream handshake fails}; "
